@@ -70,6 +70,17 @@ pub fn payload(id: u32, size: usize, compressible: bool) -> Vec<u8> {
 	v
 }
 
+/// payload by class code: 0 incompressible, 1 compressible, 2 = the payload is ITSELF a gzip stream (starts 1f 8b 08),
+/// 3 = itself a brotli stream: content that merely looks like an encoding must be treated as content
+pub fn payload_c(id: u32, size: usize, code: u8) -> Vec<u8> {
+	match code {
+		0 => payload(id, size, false),
+		1 => payload(id, size, true),
+		2 => crate::indep::encode("gzip", &payload(id, size, true)),
+		_ => crate::indep::encode("brotli", &payload(id, size, true)),
+	}
+}
+
 /// short stable hash of bytes (FNV-1a 64 folded to 31 bits so that TLC can hold it)
 pub fn h31(b: &[u8]) -> u32 {
 	let mut h: u64 = 0xcbf29ce484222325;
